@@ -436,6 +436,7 @@ def run(ck: Check):
     NC = 30 if not thorough else 220  # categorical pairs
     NF = 150 if not thorough else 1200  # forwarding dictionaries
     ck.rule(
+        "histories on one instance: fit(A); compare; fit(B) without reset; compare == a new instance on B, and the reference itself / a permutation of it as the batch == the named test on (ref, ref); "
         "sample pairs of sizes 3..40 (3-5 over-represented) of kinds gauss / shifted / 1/8-grid (ties, exact transforms) / small alphabets (heavy ties) / interleaved "
         "(small D) / identical / one or both constant; every detector on every pair with default options, and every single value of every accepted option "
         "(alternative, method incl. PermutationMethod, midrank, use_continuity, nan_policy, axis, keepdims, permutations, random_state, trim, correction, lambda_) "
@@ -606,6 +607,55 @@ def run(ck: Check):
             return None if close(res, p, 1e-9, 1e-11) else dict(model_p=res, impl_p=p, D=D, n=n, m=m)
 
         add(f"kuiper_fpp (A:=FloatA) {fl(float(D))} {n} {m}", chk_g, "kuiper_fpp (FloatA) vs KuiperTest._false_positive_probability")
+
+    # ---------------- histories on ONE instance: re-fit without reset, the reference itself as the batch
+    def same_res(a, b_):
+        return a[0] == b_[0] and (a[0] != "ok" or (arr_close(a[1], b_[1], 1e-9, 1e-12) and (p_kind(a[2]) == p_kind(b_[2])) and (p_kind(a[2]) or arr_close(a[2], b_[2], 1e-9, 1e-12))))
+
+    def on_instance(det, test, kw, seed):
+        np.random.seed(seed)
+        try:
+            res = det.compare(X=test, **dec_kw(kw))[0]
+            return ("ok", res.statistic, res.p_value)
+        except Exception as e:  # noqa: BLE001
+            return ("exc", type(e).__name__, str(e))
+
+    for hi in range(10 if not thorough else 60):
+        for w in NUMERIC + ["Chi"]:
+            if w == "Chi":
+                a, b_, _style = gen_cat(rng)
+                A_, Y1 = cat_arrays(a, b_, "str")
+                a2, b2, _ = gen_cat(rng)
+                B_, Y2 = cat_arrays(a2 + ["zz"], b2, "str")  # a category the first reference did not have
+                kw = {}
+            else:
+                A_, Y1, _k = gen_pair(rng, n=rng.choice([6, 9, 14]), m=rng.choice([5, 8]))
+                B_, Y2, _k = gen_pair(rng, n=rng.choice([7, 11]), m=rng.choice([6, 9]))
+                B_ = B_ + 1.5
+                kw = {"method": "exact"} if w == "BWS" else {}
+            if w != "Chi" and (pooled_constant(A_, Y1) or pooled_constant(B_, Y2) or pooled_constant(A_, A_)):
+                continue
+            det = det_cls(w)()
+            det.fit(X=A_)
+            first = on_instance(det, Y1, kw, hi)
+            det.fit(X=B_)  # no reset() in between
+            second = on_instance(det, Y2, kw, hi)
+            fresh = run_wrapper(w, B_, Y2, kw, seed=hi)
+            ck.case(dict(detector=W[w]["cls"], kind="refit-without-reset", n=len(B_), m=len(Y2)), nontrivial=second[0] == "ok", key=repr(("refit", w, hi, jl(B_), jl(Y2))))
+            ck.count("history:refit")
+            if not same_res(second, fresh):
+                ck.violation(dict(clause="refit", detector=W[w]["cls"]), dict(what="fit(A); compare; fit(B); compare(Y) on one instance differs from a new instance fitted on B", detector=W[w]["cls"], A=jl(A_), Y1=jl(Y1), B=jl(B_), Y=jl(Y2), kw=kw, got=[jl(x) for x in second[1:]], fresh=[jl(x) for x in fresh[1:]], first=[jl(x) for x in first[1:]]))
+            # the reference itself (element by element) and a permutation of it as the batch
+            if w == "AD":
+                continue  # SciPy's anderson_ksamp needs more than one distinct pooled value and warns on identical samples; covered by MWU / CVM / Welch / BWS / Kuiper / chi-square
+            det2 = det_cls(w)()
+            det2.fit(X=B_)
+            own = on_instance(det2, np.array(B_.tolist()), kw, hi)
+            perm = on_instance(det2, np.array(rng.sample(B_.tolist(), len(B_))), kw, hi)
+            oracle = direct(w, B_, np.array(B_.tolist()), kw, seed=hi) if w != "Kuiper" else perm
+            ck.count("history:self-batch")
+            if not same_res(own, perm) or not same_res(own, oracle):
+                ck.violation(dict(clause="self-batch", detector=W[w]["cls"]), dict(what="compare(batch equal to the reference) differs from the named test on (reference, reference) / from a permutation of the same batch", detector=W[w]["cls"], B=jl(B_), kw=kw, got=[jl(x) for x in own[1:]], permuted=[jl(x) for x in perm[1:]], direct=[jl(x) for x in oracle[1:]]))
 
     # ---------------- chi-square
     CT = det_cls("Chi")
